@@ -334,9 +334,9 @@ inductive AggFn where
   deriving DecidableEq, Repr
 
 def sumStep (s : N) : CellArg N → N
-  | .num x _ => if isNaN x then s else add s x
+  | .num x _ => if isNaN x || isInf x then s else add s x   -- value.ToNumber() is ArgError for NaN / ±Inf
   | .str t => match parse t with
-    | some y => if isNaN y then s else add s y
+    | some y => if isNaN y || isInf y then s else add s y     -- e.g. the text "inf", "NaN"
     | none => s
   | .err _ => add s zero
   | .empty => add s zero
@@ -348,7 +348,7 @@ def avgStep (cs : N × N) : CellArg N → N × N
   | .str t =>
     if t = sTRUE ∨ t = sFALSE then cs
     else match parse t with
-      | some y => if isNaN y then cs else (add cs.1 one, add cs.2 y)
+      | some y => if isNaN y || isInf y then cs else (add cs.1 one, add cs.2 y)
       | none => cs
   | _ => cs
 
